@@ -183,6 +183,18 @@ CHECKS = {
              note=BASE_NOTE + "No scheduling hooks (H4): real scheduling and memory ordering are exercised, not enumerated; a race that needs a rare schedule can be missed by a run. Readers overlapping a "
              "rotating writer and concurrent read_next are outside the stress scenarios (the known windows); the theorem says nothing about executions that enter them.",
              tech="Lean 4 proof (every interleaving of atomic operations refines the FIFO spec; induction over the interleaving) + real-thread stress correspondence + oracle", ref="§6 C05"),
+ "C21": dict(text="Partial: the property is FALSE of the code (open finding readAllConsumes). Model (Model/LogStore.lean): MemLogStoreInner, WalLogRecord, recover_from_wal, the peer-address records and "
+             "WriteAheadLog as a record list with the engine's persisted consumed-count; restarts (clean, killed, in-process drop) keep the logs and drop the in-memory part. Theorems, for histories of any "
+             "length with any number of restarts: C21_logs_hold_ack (replaying the WHOLE of each log always gives exactly the acknowledged vote, committed id, purge point, entries and peer addresses - "
+             "nothing acknowledged is ever missing from the logs), C21_reopen_reports_suffix + open_consumes (a reopened store reports exactly the replay of what no earlier read_all consumed), "
+             "C21_partial (the property itself for every history in which no open finds an already-consumed log, i.e. at most one reopen after data), C21_counterexample (two reopens: vote, committed id, "
+             "3 of 4 entries and the peer address are gone; replayed on the real store on every run), C21_nonconsuming_holds (over a reader that starts from the beginning the property holds for "
+             "every history). Correspondence: the real WalLogStore / MemLogStoreInner / peer-record code (sliced verbatim from storage.rs and node.rs at build time) over the real WriteAheadLog and "
+             "octopii's vendored engine copy, one child process per segment, ~210 programs per quick run (1500 thorough) compared line by line with LogStore.step; independent acknowledged-state oracle.",
+             note=BASE_NOTE + "openraft's LogId/Vote/Entry/LogState/IOFlushed and the storage traits, tokio and bincode are stand-ins (harness/octo/src/raftshim.rs, harness/shims): the real crates cannot be "
+             "built offline. Process restarts only (no machine crash of the vendored engine copy). The bare wrapper is compared only in the way the store uses it (read_all straight after open). "
+             "No repair committed: making recovery non-consuming needs a different read API use in octopii, which the baseline suite does not build.",
+             tech="Lean 4 proof (inductive invariant over operation histories: the logs replay to the acknowledged state; counterexample by kernel evaluation) + build-time source slicing + differential correspondence + oracle", ref="§6 C21"),
 }
 NOT_APPLICABLE = {
  "C19": "statement about the vendored openraft core + QUIC transport + tokio runtime, none of which can be built or run offline here (tokio, quinn, rustls, futures absent from the registry); a free-standing Raft proof would be tied to nothing (DESIGN.md §6 C19)",
